@@ -78,7 +78,12 @@ class C13(check.Check):
         out["sample"] = dict(layers=layers, inputs=desc["recipe"]["inputs"], options=desc["opts"], outcome=out["outcome"])
         return out
 
+    hang_is_violation = True  # "the compiler terminates"
+
     def minimise(self, desc, sig):
+        if sig.get("oracle") == "does_not_terminate":
+            return desc  # every probe of the minimiser would cost the full bound
+
         def fails(recipe):
             return self.still_fails(dict(desc, recipe=recipe), sig)
 
